@@ -69,11 +69,15 @@ RECURSIVE AncOf(_, _, _)
 AncOf(ins, a, n) == IF n = 0 THEN {}
                     ELSE ParentsIn(ins, a) \cup UNION { AncOf(ins, p, n - 1) : p \in ParentsIn(ins, a) }
 WithClosure(p) == [kind |-> p.kind, ins |-> p.ins, vals |-> p.vals,
+                   \* feedback declarations (Algorithm.feedback()): values of DOWNSTREAM algorithms an algorithm wants to
+                   \* see again.  They create no ordering edge (C09) but a new fed-back value re-schedules the declarer.
+                   fb  |-> IF "fb" \in DOMAIN p THEN p.fb ELSE [a \in Alg |-> {}],
                    anc |-> [a \in Alg |-> AncOf(p.ins, a, Cardinality(Alg))]]
 Anc(a)  == prog.anc[a]
 Desc(a) == { d \in Alg : a \in prog.anc[d] }
 
 Consumers(a, N) == { c \in Children(a) : \E v \in N : <<a, v>> \in prog.ins[c] }
+                   \cup { c \in Alg : \E v \in N : <<a, v>> \in prog.fb[c] }       \* schedule.update: "following feedback loop"
 
 -----------------------------------------------------------------------------
 (* Ground truth                                                            *)
